@@ -184,6 +184,18 @@ theorem cons_apiAsync_emptyShard_witness :
     (ProxyAsync.startShard []).2 = false ∧ ProxyAsync.fetchShard [] = .skipped ∧
     ProxySearch.searchShard [] = .nilResp := by decide
 
+/-- follow-up: Model/ProxyAsync.lean now wraps both loops (`startShardTop`, `fetchShardTop`) so that a shard without
+replicas behaves as in Go (start succeeds with nobody asked; fetch yields the nil response that is dereferenced); the
+witness above remains true of the inner loops `startShard` / `fetchShard`, which are only reached with a replica. -/
+theorem cons_apiAsync_emptyShard_top_follows_go :
+    (ProxyAsync.startShardTop []).2 = true ∧ ProxyAsync.fetchShardTop [] = .nilResp ∧
+    ∀ s : List Bool, s ≠ [] → ProxyAsync.startShardTop s = ProxyAsync.startShard s := by
+  refine ⟨by decide, by decide, ?_⟩
+  intro s hs
+  cases s with
+  | nil => exact absurd rfl hs
+  | cons a r => rfl
+
 /-! ## request parameters -/
 
 /-- cited: the async request's parameters are the synchronous ones (`SV.Async.asyncParams_eq_sync`, Model/ApiAsync.lean) -/
